@@ -90,6 +90,10 @@ Section Spec.
   Definition elem_at (l : list elem) (k : N) : option elem :=
     if k <? nlen l then Some (nth (N.to_nat k) l []) else None.
 
+  (* capacity: the vector may only grow, the buffer keeps its capacity *)
+  Definition grows (k : kind) (mem mem' : N) : Prop :=
+    match k with KVec => mem <= mem' | KBuf => mem' = mem end.
+
   Definition ptr_spec (siz mem' : N) (l : list elem) (r : ret) (k : option N) : Prop :=
     match k with
     | None => null_ptr r
@@ -101,7 +105,7 @@ Section Spec.
     match o with
     | OSetm m =>
         match k with
-        | KVec => (r = RInt A_SUCCESS /\ m <= mem' /\ mem <= mem' /\ same siz siz' l l' d)
+        | KVec => (r = RInt A_SUCCESS /\ m <= mem' /\ grows k mem mem' /\ same siz siz' l l' d)
                   \/ (r = RInt A_OMEMORY /\ mem < m /\ mem' = mem /\ same siz siz' l l' d)
         | KBuf => (r = RInt A_SUCCESS /\ mem' = m /\ siz' = siz /\ d = [] /\ l' = firstn (N.to_nat m) l)
                   \/ (r = RInt A_OMEMORY /\ mem' = mem /\ same siz siz' l l' d)
@@ -130,7 +134,7 @@ Section Spec.
         let key := fit siz key0 in
         (null_ptr r /\ mem < nlen l + 1 /\ mem' = mem /\ same siz siz' l l' d)
         \/ (exists off p, r = RPtr (Some off) (Some key) /\ slot_ptr siz mem' p off /\ p <= nlen l
-                          /\ siz' = siz /\ d = [] /\ mem <= mem'
+                          /\ siz' = siz /\ d = [] /\ grows k mem mem'
                           /\ l' = firstn (N.to_nat p) l ++ key :: skipn (N.to_nat p) l
                           /\ (sorted l -> l' = sp_push_sort l key))
     | OSearch key => r = RFound (sp_find l (fit siz key)) /\ mem' = mem /\ same siz siz' l l' d
@@ -138,15 +142,15 @@ Section Spec.
         (null_ptr r /\ mem < nlen l + 1 /\ mem' = mem /\ same siz siz' l l' d)
         \/ (exists off, r = RPtr (Some off) (Some (fit siz v))
                         /\ slot_ptr siz mem' (N.min idx (nlen l)) off
-                        /\ siz' = siz /\ d = [] /\ mem <= mem' /\ l' = sp_insert l idx (fit siz v))
+                        /\ siz' = siz /\ d = [] /\ grows k mem mem' /\ l' = sp_insert l idx (fit siz v))
     | OPushFore v =>
         (null_ptr r /\ mem < nlen l + 1 /\ mem' = mem /\ same siz siz' l l' d)
         \/ (exists off, r = RPtr (Some off) (Some (fit siz v)) /\ slot_ptr siz mem' 0 off
-                        /\ siz' = siz /\ d = [] /\ mem <= mem' /\ l' = fit siz v :: l)
+                        /\ siz' = siz /\ d = [] /\ grows k mem mem' /\ l' = fit siz v :: l)
     | OPushBack v =>
         (null_ptr r /\ mem < nlen l + 1 /\ mem' = mem /\ same siz siz' l l' d)
         \/ (exists off, r = RPtr (Some off) (Some (fit siz v)) /\ slot_ptr siz mem' (nlen l) off
-                        /\ siz' = siz /\ d = [] /\ mem <= mem' /\ l' = l ++ [fit siz v])
+                        /\ siz' = siz /\ d = [] /\ grows k mem mem' /\ l' = l ++ [fit siz v])
     | ORemove idx =>
         mem' = mem /\ siz' = siz /\ d = [] /\
         ((l = [] /\ null_ptr r /\ l' = l)
@@ -168,7 +172,7 @@ Section Spec.
     | OStore idx vs =>
         (r = RInt (match k with KVec => A_OMEMORY | KBuf => A_OBOUNDS end)
          /\ mem < nlen l + nlen vs /\ mem' = mem /\ same siz siz' l l' d)
-        \/ (r = RInt A_SUCCESS /\ siz' = siz /\ d = [] /\ mem <= mem'
+        \/ (r = RInt A_SUCCESS /\ siz' = siz /\ d = [] /\ grows k mem mem'
             /\ l' = sp_store l idx (map (fit siz) vs))
     | OErase idx cnt dt =>
         mem' = mem /\ siz' = siz /\
